@@ -94,24 +94,59 @@ def identities_check(report, c, where):
     return n
 
 
+ZQ = ("z_res", "a_res", "s_res", "mu_res", "h_res", "cv_res", "dpdv_res_rel")
+
+
 def zero_density_check(sweep):
-    """support search: residual quantities scale (at most) linearly with rho down to 1e-12 rho_max"""
+    """support search for the partial clause: along rho/rho_max = 1e-2 ... 1e-12 every residual quantity X (made dimensionless
+    with its ideal-gas scale) vanishes like B rho:
+      finite      X is finite at every density (when it is at the reference densities: otherwise the model is undefined at this T)
+      vanishes    |X(1e-12)| <= 1e-6 |X(1e-4)|                       (a linear law gives 1e-8; a sqrt law or a constant fails)
+      converges   the slopes s_k = X/rho at rho <= 1e-8 rho_max form a Cauchy sequence: |s_k - s_(k-1)| <= 2 |s_(k-1) - s_(k-2)| + floor,
+                  floor = 100 eps / (rho_k/rho_max) * max(1, |s(1e-7)|)   (round-off of X of 100 ulp of its natural scale; the
+                  unchanged tree stays below ~15 ulp) - catches cancellation noise, which grows like 1/rho^2
+      total-ideal (p_total - p_ideal)/p_ideal = Z_res to 1e-15
+    returns (failures, number of tests, skipped)"""
     bad = []
-    rows = [r for r in sweep["rows"] if "error" not in r]
+    if sweep.get("panic"):
+        return [{"quantity": "*", "what": "panic"}], 1, False
+    rows = sweep["rows"]
+    if any("error" in r for r in rows):
+        return [{"quantity": "*", "what": "state construction failed", "rows": [r for r in rows if "error" in r][:2]}], 1, False
     refs = [r for r in rows if r["frac"] >= 1e-3]
-    low = [r for r in rows if r["frac"] <= 1e-4]
-    if len(refs) < 2:
-        return bad, 0
+    if all(any(r[q] is None for q in ZQ) for r in refs):
+        return [], 0, True          # model undefined at this temperature already at ordinary densities
     n = 0
-    for q in ("z_res", "a_res", "s_res", "mu_res", "h_res", "cv_res", "dpdv_res_rel", "p_tot_minus_ig_rel"):
-        k = 10.0 * max(abs(r[q]) / r["frac"] for r in refs)
-        floor = 1e-15 if q == "p_tot_minus_ig_rel" else 1e-300
-        for r in low:
-            n += 1
-            v = r[q]
-            if v is None or not (abs(v) <= k * r["frac"] + floor):
-                bad.append({"quantity": q, "frac_of_rho_max": r["frac"], "value": v, "bound": k * r["frac"]})
-    return bad, n
+    eps = 2.220446049250313e-16
+    for q in ZQ:
+        n += 3
+        vals = [(r["frac"], r[q]) for r in rows]
+        if any(v is None for _, v in vals):
+            bad.append({"quantity": q, "what": "not finite", "at_fraction_of_rho_max": [f for f, v in vals if v is None][:4]})
+            continue
+        d = dict(vals)
+        if not abs(d[1e-12]) <= 1e-6 * abs(d[1e-4]) + 1e-300:
+            bad.append({"quantity": q, "what": "does not vanish like rho", "X(1e-4)": d[1e-4], "X(1e-12)": d[1e-12]})
+        sl = [(f, v / f) for f, v in vals]
+        s7 = abs(dict(sl)[1e-7])
+        for k in range(2, len(sl)):
+            f = sl[k][0]
+            if f > 1e-8:
+                continue
+            dk = abs(sl[k][1] - sl[k - 1][1])
+            dk1 = abs(sl[k - 1][1] - sl[k - 2][1])
+            floor = 100.0 * eps / f * max(1.0, s7)
+            if not dk <= 2.0 * dk1 + floor:
+                bad.append({"quantity": q, "what": "X/rho does not converge (noise grows towards zero density)", "fraction_of_rho_max": f,
+                            "slopes": [x[1] for x in sl[k - 2:k + 1]], "allowed_step": 2.0 * dk1 + floor})
+                break
+    for r in rows:
+        n += 1
+        if r["p_tot_minus_ig_rel"] is None or r["z_res"] is None or not abs(r["p_tot_minus_ig_rel"] - r["z_res"]) <= 1e-15 * (1.0 + abs(r["z_res"])):
+            bad.append({"quantity": "p_total - p_ideal", "what": "differs from p_residual", "fraction_of_rho_max": r["frac"],
+                        "values": [r["p_tot_minus_ig_rel"], r["z_res"]]})
+            break
+    return bad, n, False
 
 
 MAX_PER_KIND = 2
@@ -295,16 +330,26 @@ def run(ctx):
     # ------------------------------------------------------------------ part D: zero-density sweep (support search, partial clause)
     n_zero = 0
     zero_rows = 0
+    zero_skipped = []
+    known = [e for e in V.load_known("C10") if e.get("key", {}).get("kind") == "zero_density"]
     for sw in impl["zero_density"]:
-        bad, n = zero_density_check(sw)
+        bad, n, skipped = zero_density_check(sw)
         n_zero += n
         zero_rows += len(sw["rows"])
-        errs = [r for r in sw["rows"] if "error" in r]
-        if bad or errs:
-            report("zero_density", "residual quantity does not vanish linearly with density on %s at T=%.6g x=%s: %s" %
-                        (sw["config"], sw["T"], sw["x"], (bad or errs)[0]),
-                        {"broken": "zero-density limit (support search; C10_residual_zero_density_partial hypothesis)", "config": sw["config"],
-                         "T": sw["T"], "x": sw["x"], "rho_max": sw["rho_max"], "failing": bad[:10], "errors": errs[:3]}, found_input=True)
+        if skipped:
+            zero_skipped.append({"config": sw["config"], "T": sw["T"], "x": sw["x"]})
+        if not bad:
+            continue
+        entry = next((e for e in known if sw["config"] in e["key"]["configs"]
+                      and all(b["quantity"] in e["key"]["quantities"] and b["what"] in e["key"]["modes"] for b in bad)), None)
+        if entry is not None:
+            V.report_known(ctx, entry)
+            continue
+        report("zero_density", "residual quantity does not vanish like B*rho on %s at T=%.6g x=%s: %s" %
+               (sw["config"], sw["T"], sw["x"], bad[0]),
+               {"broken": "zero-density limit (support search; C10_residual_zero_density_partial hypothesis / conclusion a/rho -> a'(0))",
+                "config": sw["config"], "T": sw["T"], "x": sw["x"], "rho_max": sw["rho_max"], "failing": bad[:10],
+                "sweep": [{k: r.get(k) for k in ("frac", "a_res", "z_res", "s_res", "mu_res", "cv_res")} for r in sw["rows"]]}, True)
     if impl["zero_density"]:
         sw = impl["zero_density"][0]
         samples.append({"zero_density": sw["config"], "T": sw["T"], "x": sw["x"],
@@ -346,7 +391,9 @@ def run(ctx):
         "total_is_sum_worst_relative_residual": worst_sum,
         "cp_state_vs_direct_worst_relative": worst_cp,
         "ideal_mixing_evaluations": n_mix,
-        "support_search": {"level": "exploration", "what": "zero-density sweep: |X_res| <= 10 max_ref(|X_res|/rho) rho for rho/rho_max in 1e-4..1e-12",
+        "support_search": {"level": "exploration", "what": "zero-density sweep on every residual configuration, rho/rho_max = 1e-2..1e-12: finite; |X(1e-12)| <= 1e-6 |X(1e-4)|; "
+                                   "slopes X/rho Cauchy below 1e-8 rho_max (step <= 2 previous step + 100 ulp/rho); (p_tot - p_ig)/p_ig = Z_res",
+                           "skipped_model_undefined_at_T": zero_skipped,
                            "sweeps": len(impl["zero_density"]), "states": zero_rows, "bound_checks": n_zero},
         "tolerances": {"model_vs_implementation": MODEL_RTOL, "total_vs_sum": SUM_RTOL, "cp_state_vs_direct": CP_RTOL,
                        "ideal_pressure_SI": 1e-12, "ideal_mixing": "1e-10 (|mu_mix| + |mu_pure| + RT)"},
